@@ -76,6 +76,17 @@ def universe():
             add(M([(S('str', key), v)]))
         add(M([(S('str', 'a-b'), v), (S('str', 'a_b'), S('str', 'other'))]))
         add(M([(S('str', 'a_b'), v), (S('str', 'a-b'), S('str', 'other'))]))
+    # node kind and core tag disagree (explicit tags): the helpers speak about the node kind
+    for tg in ('!!str', '!!int', '!!float', '!!bool', '!!null'):
+        add(M([(S('str', 'a'), S('int', '1'))], tg))
+        add(M([], tg))
+        add(Q([S('int', '1')], tg))
+        add(Q([], tg))
+    for tg in ('!!map', '!!seq', '!A', '!Unknown'):
+        add(S(tg, 'x'))
+        add(S(tg, ''))
+    add(M([(S('str', 'a'), S('int', '1'))], '!!seq'))
+    add(Q([S('int', '1')], '!!map'))
     add(M([(S('str', 'a'), S('int', '1')), (S('str', 'a'), S('int', '2'))]))
     add(M([(S('int', '1'), S('int', '1'))]))
     add(M([(S('null', 'a'), S('int', '1'))]))
